@@ -420,6 +420,10 @@ def rule_l(ctx):
     # the byte-stream transport writes prefix and payload of the frame it is given, once, in order (shared C02.e)
     from .c02 import rule_tcp_writer
     rule_tcp_writer(ctx)
+    # a new connection of the same client starts with an empty reassembly cache (and table, queues): fragments left
+    # over from the old connection are not prepended to what arrives on a reused stream id (shared C17.c)
+    from .c17 import rule_c as c17c
+    c17c(ctx)
 
 
 def rule_g(ctx):
@@ -440,4 +444,4 @@ def rule_d(ctx):
     c03f(ctx)
 
 
-RULES = [('C01.a', rule_a), ('C01.b', rule_b), ('C01.c', rule_c), ('C01.d', rule_e), ('C01.e', rule_f), ('C01.f', rule_g), ('C06.e', rule_h), ('C06.a', rule_i), ('C01.g', rule_j), ('C01.h', rule_k), ('C01.i+C02.e', rule_l), ('C05.a+C05.f+C03.b+C03.c+C03.f', rule_d)]
+RULES = [('C01.a', rule_a), ('C01.b', rule_b), ('C01.c', rule_c), ('C01.d', rule_e), ('C01.e', rule_f), ('C01.f', rule_g), ('C06.e', rule_h), ('C06.a', rule_i), ('C01.g', rule_j), ('C01.h', rule_k), ('C01.i+C02.e+C17.c', rule_l), ('C05.a+C05.f+C03.b+C03.c+C03.f', rule_d)]
